@@ -93,8 +93,8 @@ def run(pid, tier):
         raise ToolError('only %d cases generated' % len(cases))
     common.run_bin('parallel', ['--worlds', fw, '--in', fc, '--out', fr], timeout=3000, log=os.path.join(d, 'harness.log'), package='vh-core')
     res = common.read_ndjson(fr)
-    if len(res) != 2 * len(cases):
-        raise ToolError('harness answered %d of %d' % (len(res), 2 * len(cases)))
+    if len(res) != 4 * len(cases):
+        raise ToolError('harness answered %d of %d' % (len(res), 4 * len(cases)))
     recs = []
     for r in res:
         c = cases[r['c'] - 1]
